@@ -19,7 +19,8 @@ RULE = ("sample streams of 1-3 tasks x 1-4 clients (warm-up then normal samples,
         "in the returned tuples; a case is non-trivial when at least one call starts with carried-over samples; signature = (model branch "
         "tags, cutting mode, number of tasks, oracle outcome)")
 TRUSTED = [
-    "IEEE-754 model RallyModel/Dbl.lean for `a - b` and `count / interval` (validated bit-for-bit by the dbl stream of the framework)",
+    "IEEE-754 model RallyModel/Dbl.lean for `a - b`, `float(count)` and `count / interval` (validated bit-for-bit against CPython; the floats "
+    "stream re-validates `-` and `/` on arbitrary doubles through every emitted value)",
     "Python's `sorted(key=...)` is the stable sort (model: stable insertion sort; tied to the code by the stable_sort stream)",
     "samples of one task are grouped by Task.__eq__/__hash__ (harness uses distinct task names, and equal copies of Task objects)",
 ]
@@ -545,9 +546,9 @@ def run_sort(ctx, case):
 
 STREAMS = [
     Stream("boundary", gen_boundary, run_case, quick=600, thorough=6000, shards=2),
-    Stream("dyadic", gen_dyadic, run_case, quick=24000, thorough=600000, shards=16),
-    Stream("floats", gen_floats, run_case, quick=6000, thorough=150000, shards=8),
-    Stream("passthrough", gen_pass, run_case, quick=3000, thorough=60000, shards=4),
-    Stream("mixed_malformed", gen_mixed, run_case, quick=1500, thorough=30000, shards=2),
-    Stream("stable_sort", gen_sort, run_sort, quick=1000, thorough=20000, shards=1),
+    Stream("dyadic", gen_dyadic, run_case, quick=15000, thorough=300000, shards=16),
+    Stream("floats", gen_floats, run_case, quick=4000, thorough=80000, shards=8),
+    Stream("passthrough", gen_pass, run_case, quick=2000, thorough=40000, shards=4),
+    Stream("mixed_malformed", gen_mixed, run_case, quick=1000, thorough=20000, shards=2),
+    Stream("stable_sort", gen_sort, run_sort, quick=500, thorough=20000, shards=1),
 ]
